@@ -1,44 +1,12 @@
 // C02: civil -> instant conversion: UNIQUE / SKIPPED / REPEATED and pre/trans/post.
 // Oracle: zonemodel::civil_to_instants (brute force over the offsets in force +
 // responsible-change analysis), clamped to int64.
-#include "zonecheck.h"
+#include "zoneoracle.h"
 
 using vf::i128;
-static vf::Evidence* EV;
-static const vf::Args* ARGS;
-
-static const char* kind_name(int k) { return k == 0 ? "UNIQUE" : k == 1 ? "SKIPPED" : "REPEATED"; }
-
-// csecs: the civil second expressed as seconds of the same fields read in UTC
-static bool check_civil(const zp::Zone& z, const zp::Handle& h, i128 csecs, std::string* why, std::string* cls = nullptr) {
-  const zm::Model& m = z.model;
-  const refcal::Civil c = refcal::from_secs(csecs);
-  if (!zp::cs_fits(c)) return true;
-  const cctz::civil_second cs = zp::cs_of(c);
-  const zm::Model::CivilAnswer a = m.civil_to_instants(csecs);
-  const auto cl = h.lookup(cs);  // always executed: totality / UB is part of the property family
-  if (a.crowded && a.kind != 0 && ARGS && ARGS->excluded("crowded_change")) {
-    EV->excl("crowded_change"); if (cls) *cls = "excluded"; return true;   // known finding R8
-  }
-  if (!a.consistent) { EV->unspec("civil_time_near_crowded_changes(model_inconsistent)"); if (cls) *cls = "unspecified"; return true; }
-  if (m.pre_first_unspecified && !m.f.trans.empty() && std::min(a.pre, a.post) <= (i128)m.f.trans.front().t) {
-    EV->unspec("before_first_transition_with_DST_type0_referenced"); if (cls) *cls = "unspecified"; return true;
-  }
-  const int64_t epre = refcal::clamp64(a.pre), etr = refcal::clamp64(a.trans), epost = refcal::clamp64(a.post);
-  const int64_t gpre = zp::unix_of(cl.pre), gtr = zp::unix_of(cl.trans), gpost = zp::unix_of(cl.post);
-  const bool all_sat = (!refcal::fits64(a.pre) && !refcal::fits64(a.trans) && !refcal::fits64(a.post));
-  const int gk = cl.kind == cctz::time_zone::civil_lookup::UNIQUE ? 0 : cl.kind == cctz::time_zone::civil_lookup::SKIPPED ? 1 : 2;
-  if (cls) *cls = all_sat ? "saturated" : kind_name(a.kind);
-  bool bad = gpre != epre || gtr != etr || gpost != epost;
-  if (!all_sat && gk != a.kind) bad = true;  // no representable instant is involved when everything saturates
-  if (bad) {
-    *why = "lookup(" + refcal::str(c) + "): got " + kind_name(gk) + " pre=" + vf::i64_str(gpre) + " trans=" + vf::i64_str(gtr) +
-           " post=" + vf::i64_str(gpost) + "; data says " + kind_name(a.kind) + " pre=" + vf::i64_str(epre) + " trans=" +
-           vf::i64_str(etr) + " post=" + vf::i64_str(epost) + " (" + std::to_string(a.solutions) + " instant(s) display it)";
-    return false;
-  }
-  return true;
-}
+static vf::Evidence*& EV = zo::EV;
+static const vf::Args*& ARGS = zo::ARGS;
+using zo::check_civil;
 
 // known finding R8 (crowded overlap): zic-compiled zones may contain a table entry closer to a change than the change's size.
 // Such civil times are recognised by the model as inconsistent and counted as unspecified (see check_civil).
@@ -61,35 +29,8 @@ static bool check_zone(const zp::Zone& z, zp::Handle& h, bool in_rc, bool full, 
     if (EV->want_sample(tag + "_" + cls)) EV->sample(tag + "_" + cls, z.kind + " zone (" + zc::zone_class(m) + ") civil " + refcal::str(refcal::from_secs(csecs)) + " -> " + cls);
     return true;
   };
-  for (size_t i = 0; i < an.instants.size(); ++i) {
-    const i128 A = an.instants[i];
-    const std::vector<zm::Change> chs = m.changes(A, A);
-    bool outside = m.f.trans.empty() || A < m.f.trans.front().t || A >= m.f.trans.back().t;
-    if (chs.empty()) {
-      const i128 base = A + m.type_at(A).utoff;
-      for (i128 d : {(i128)0, (i128)-1, (i128)1, (i128)-86400, (i128)86400, (i128)3600, (i128)-3600})
-        if (!probe(base + d, outside, an.tags[i])) return false;
-      continue;
-    }
-    for (auto& ch : chs) {
-      const i128 lo = ch.t + std::min(ch.before.utoff, ch.after.utoff), hi = ch.t + std::max(ch.before.utoff, ch.after.utoff);
-      std::vector<i128> pts;
-      for (int k = -2; k <= 2; ++k) { pts.push_back(lo + k); pts.push_back(hi + k); }
-      pts.push_back(lo + (hi - lo) / 2);
-      if (hi - lo <= 90) for (i128 x = lo; x < hi; ++x) pts.push_back(x);
-      else for (int k = 3; k < 40; k += 7) { pts.push_back(lo + k * 61); pts.push_back(hi - k * 61); }
-      pts.push_back(lo - 86400); pts.push_back(hi + 86400);
-      for (i128 x : pts) if (!probe(x, true, an.tags[i])) return false;
-    }
-    EV->cls("anchor_" + an.tags[i]);
-  }
-  // the ends of the civil range
-  const i128 cmin = refcal::to_secs(refcal::Civil{refcal::kI64Min, 1, 1, 0, 0, 0});
-  const i128 cmax = refcal::to_secs(refcal::Civil{refcal::kI64Max, 12, 31, 23, 59, 59});
-  for (i128 k : {(i128)0, (i128)1, (i128)59, (i128)86400, (i128)86400 * 366}) {
-    if (!probe(cmin + k, true, "civil_min")) return false;
-    if (!probe(cmax - k, true, "civil_max")) return false;
-  }
+  for (const zo::CivilPoint& pt : zo::civil_points(m, an))
+    if (!probe(pt.csecs, pt.nontrivial, zo::point_tag(an, pt.tag))) return false;
   if (in_rc) {
     int n = *vf::range<int>(4, 12);
     for (int k = 0; k < n; ++k) {
